@@ -14,6 +14,7 @@ import sys
 
 import core
 import gstate
+import reference
 import sched
 import seams
 import workload
@@ -181,7 +182,7 @@ class ParsersWorld:
                                            "dump_fault_fired": 0, "reruns": 0, "mode_changes": 0,
                                            "after_fault_checks": 0, "stmts": 0, "cancel_in_multi": 0,
                                            "objects": 0, "exc_outcomes": 0, "refs_other_hashseed": 0,
-                                           "global_state_changed": 0, "victims_run": 0, "nodump_with_paths": 0, "reflag_objects": 0, "followup_objects": 0,
+                                           "global_state_changed": 0, "victims_run": 0, "nodump_with_paths": 0, "from_file_other_process": 0, "reflag_objects": 0, "followup_objects": 0,
                                            "marathon_runs": 1 if (trace.get("swarm") or {}).get("marathon") else 0},
               "kinds": []}
         chooser = sched.ListChooser([])
@@ -292,6 +293,15 @@ class ParsersWorld:
                     ref_args = (cur["ddl"], cur["flags"], op["kw"])
                     expected = self.ref(*ref_args)
                     stats["refs"] += 1
+                    if self.ref_x is not None and outcome == expected:
+                        # the very same call in another process (other hash seed, plain C locale) yields an equal result
+                        other = self.ref_x.from_file(path, cur["flags"], op["kw"])
+                        stats["from_file_other_process"] += 1
+                        if other != outcome:
+                            st["violations"].append({"oracle": "other_process_differs", "op_index": i, "op": kind,
+                                                     "environment": dict(reference.OTHER_ENV, PYTHONHASHSEED=str(self.ref_x.hashseed)),
+                                                     "expected": core.short(outcome, 600), "observed": core.short(other, 600),
+                                                     "diff": core.first_diff(outcome, other)})
                 st["kinds"].append("from_file")
             elif kind == "run":
                 kw = dict(op["kw"])
@@ -519,6 +529,14 @@ class ParsersWorld:
                 if len(runs) == 1:
                     runs.append(dict(runs[0]))
             tasks.append(task)
+        if rs.random() < (0.6 if gran == "L" else 0.3):
+            # every object renders in ANOTHER dialect: interference through shared formatting state (dialect classes,
+            # clean-up helpers) shows as one object's tables shaped by another object's output_mode
+            modes = rs.sample([m for m in self.modes if m != "sql"], min(len(tasks), len(self.modes) - 1))
+            for t, m in zip(tasks, modes):
+                for kw in t["runs"]:
+                    kw["output_mode"] = m
+            swarm["distinct_modes"] = True
         return {"world": "parsers", "prop": "C15", "seed": seed, "swarm": swarm, "tasks": tasks}
 
     @staticmethod
